@@ -4,7 +4,7 @@ import concurrent.futures, json, os, traceback
 from vlib import common as C, e2e, sysrun as S
 
 PROP = "C01"
-THEOREMS = []  # filled by the Lean side (Props/C01.lean)
+THEOREMS = ["GitAi.DiffParse.parseHunkRanges_headerLine", "GitAi.DiffParse.parse_render_exact", "GitAi.DiffParse.normPath_plain"]
 
 FILE_NAMES = ["f1.txt", "src/main.rs", "dir/my file.txt", "ünï.txt", "-dash.txt", "q\"uote.txt", "a/b/c.py", "tab\tname.txt"]
 
